@@ -147,7 +147,7 @@ CHECKS["C05"] = dict(
          "never cuts the nearest-generator region whatever the degeneracy. Tie: degenerate families only (on walls/edges/corners, n = 1..3, collinear/coplanar, exact and near "
          "lattices, co-spherical sets, clusters, > 64 planes), debug and release under catch_unwind: no panic, finite values, debug == release, every cell = exact model cell "
          "(C01 comparison), every recorded exact decision consistent with the grid map and the Coq predicate; runs that reached the exact path are counted (must be > 0). "
-         "Filter (kernel-checked, Flocq binary64, all finite inputs without overflow): a conclusive answer of HalfSpace::clip has the sign of the exact n.(v-p) of the floating-point "
+         "Filter (kernel-checked, Flocq binary64, ALL finite inputs with components up to 2^300 - nothing overflows there - and more generally all inputs on which the computed value and bounds are finite): a conclusive answer of HalfSpace::clip has the sign of the exact n.(v-p) of the floating-point "
          "data it was given - the accumulated rounding error 11 u |n|_1 max(|p|,|v|) + 18 eta is strictly below the bound of the code; HalfSpace::new/clip (public API) are compared "
          "bit for bit with the Flocq model evaluated inside Coq on planes x vertices of constructed cells and on adversarial near-plane data, and with the exact rational sign.",
     note="Absence of panics and finiteness of the floating-point pipeline are explored, not proved. The filter theorem covers the rounding of clip itself, not the error of the vertex "
